@@ -16,6 +16,17 @@ fn fp(files: &Files, plan: &ArcPlan) -> u64 {
 }
 
 pub fn check(c: &mut Case, files: &Files, plan: &ArcPlan) {
+    let reserved = files.iter().any(|(n, _)| n == "Count" || n == "Info" || n == "Data");
+    let plan_owned;
+    let plan = if reserved && plan.decoy_labels {
+        plan_owned = ArcPlan { decoy_labels: false, ..plan.clone() };
+        &plan_owned
+    } else {
+        plan
+    };
+    if reserved {
+        c.sit("file_named_like_a_reserved_label");
+    }
     let mut rng = c.rng.clone();
     let img = arc_build(files, plan, &mut rng);
     c.rng = rng;
@@ -89,7 +100,18 @@ fn gen_arc_files(rng: &mut Rng, miri: bool) -> Files {
     let mut f = gen_files(rng, if miri { 3 } else { 20 }, if miri { 24 } else { 2048 });
     // names: non-empty, no NUL, never `Count` / `Info` (label lookup would be ambiguous)
     let mut i = 0;
-    f.retain(|(n, _)| !n.is_empty() && n != "Count" && n != "Info" && n != "Data");
+    // (at most one file may have the empty name: names are distinct)
+    let keep_empty = rng.chance(1, 3);
+    f.retain(|(n, _)| (keep_empty || !n.is_empty()) && n != "Count" && n != "Info" && n != "Data");
+    if !miri && rng.chance(1, 20) {
+        // file names equal (or close) to the labels the format itself uses; `check` switches the
+        // decoy labels off for these, so that the label lookup stays unambiguous
+        for n in ["Count", "Info", "Data", "count", "Info ", "Coun", "InfoX"] {
+            if rng.chance(1, 3) && !f.iter().any(|(x, _)| x == n) {
+                f.push((n.to_string(), rng.bytes(5)));
+            }
+        }
+    }
     for (_, b) in f.iter_mut() {
         i += 1;
         if i % 5 == 0 {
